@@ -93,7 +93,31 @@ def mod_step(a, n):
     return _z3.Implies(_z3.And(a >= 0, n >= 1), tmod(a + 1, n) == _z3.If(tmod(a, n) + 1 == n, 0, tmod(a, n) + 1))
 
 
+def div_step(a, n):
+    """(a+1) div n from a div n, for a >= 0, n >= 1 (lemma about truncating division; engine/selftest.py)"""
+    from engine.spec import tdiv, tmod
+    a, n = getattr(a, 'z', a), getattr(n, 'z', n)
+    return _z3.Implies(_z3.And(a >= 0, n >= 1), tdiv(a + 1, n) == _z3.If(tmod(a, n) + 1 == n, tdiv(a, n) + 1, tdiv(a, n)))
+
+
+def div_mono(a, b, n):
+    """0 <= a <= b implies a div n <= b div n (n >= 1) (engine/selftest.py)"""
+    from engine.spec import tdiv
+    a, b, n = [getattr(t, 'z', t) for t in (a, b, n)]
+    return _z3.Implies(_z3.And(0 <= a, a <= b, n >= 1), tdiv(a, n) <= tdiv(b, n))
+
+
+def divmod_unique(a, n, q, r):
+    """a == q*n + r with 0 <= r < n, q >= 0 determines quotient and remainder (engine/selftest.py)"""
+    from engine.spec import tdiv, tmod
+    a, n, q, r = [getattr(t, 'z', t) for t in (a, n, q, r)]
+    return _z3.Implies(_z3.And(n >= 1, q >= 0, a == q * n + r, 0 <= r, r < n), _z3.And(tdiv(a, n) == q, tmod(a, n) == r))
+
+
+ENV['DIVMOD_UNIQUE'] = divmod_unique
 ENV['MOD_STEP'] = mod_step
+ENV['DIV_STEP'] = div_step
+ENV['DIV_MONO'] = div_mono
 ENV['SUMR_UPD'] = sumr_upd
 MA_OK = 'And(_n >= 1, _buf.len == _n, 0 <= _pos, _pos < _n, _accum == SUMR(data(_buf), _n))'
 
